@@ -1,0 +1,35 @@
+//go:build verif
+
+// Verification hooks: exported wrappers around unexported functions.
+// Compiled only with the build tag "verif"; adds no behaviour.
+package processors
+
+func verifCmdLine(cmdType CmdLineType, evasion string, suffix string, suffixExpanded string) *CmdLine {
+	return &CmdLine{
+		proc:    &Processor{lines: []string{}},
+		cmdType: cmdType,
+		evasionPatterns: map[EvasionPatterns]string{
+			evasionPattern:        evasion,
+			suffixPattern:         suffix,
+			suffixExpandedCommand: suffixExpanded,
+		},
+	}
+}
+
+func VerifRegexpStr(evasion string, suffix string, suffixExpanded string, input string) string {
+	return verifCmdLine(CmdLineUnix, evasion, suffix, suffixExpanded).regexpStr(input)
+}
+
+func VerifComputeSuffix(evasion string, suffix string, suffixExpanded string, input string) (string, string) {
+	return verifCmdLine(CmdLineUnix, evasion, suffix, suffixExpanded).computeSuffix(input)
+}
+
+// VerifCmdLinePatterns returns the three patterns NewCmdLine selects for a type.
+func VerifCmdLinePatterns(ctx *Context, cmdType CmdLineType) (string, string, string) {
+	c := NewCmdLine(ctx, cmdType)
+	return c.evasionPatterns[evasionPattern], c.evasionPatterns[suffixPattern], c.evasionPatterns[suffixExpandedCommand]
+}
+
+func VerifStash(ctx *Context) map[string]string {
+	return ctx.stash
+}
